@@ -689,7 +689,9 @@ class BasicLexer(AbstractBasicLexer):
         while line_ctr.char_pos < lex_state.text.end:
             res = self.match(lex_state.text, line_ctr.char_pos)
             if not res:
-                allowed = self.scanner.allowed_types - self.ignore_types
+                # All the terminals of this lexer, not only the scanner's: string terminals that a regexp terminal
+                # also matches (keywords) are not in the scanner, but they are what may come next.
+                allowed = {t.name for t in self.terminals} - self.ignore_types
                 if not allowed:
                     allowed = {"<END-OF-FILE>"}
                 raise UnexpectedCharacters(lex_state.text.text, line_ctr.char_pos, line_ctr.line, line_ctr.column,
